@@ -311,6 +311,13 @@ class FuncRef:
     def __call__(self, *args, **kwargs):
         return self.ev.call_func(self.func, list(args), kwargs, closure=self.closure)
 
+    # a module-level function is one object however often its name is looked up (tables keyed by function rely on it)
+    def __eq__(self, other):
+        return isinstance(other, FuncRef) and other.func is self.func and other.closure is self.closure
+
+    def __hash__(self):
+        return hash((id(self.func), id(self.closure)))
+
 
 class Obj:
     """An instance of a package class: its attribute dictionary; methods and class attributes come from the class's AST.
@@ -1021,6 +1028,20 @@ class Ev:
                 return c[name]
             c = c.get("__closure__")
         mod = func.mod if func is not None else None
+        if isinstance(func, Func) and not isinstance(func.node, ast.Lambda) and "__yields__" in env and name not in ("__closure__",):
+            # a name the function binds somewhere (so it is a local) but has not bound on this path
+            locs = self.__dict__.setdefault("_locals_of", {})
+            if id(func) not in locs:
+                bound = set()
+                for n in ast.walk(func.node):
+                    if isinstance(n, ast.Name) and isinstance(n.ctx, (ast.Store, ast.Del)):
+                        bound.add(n.id)
+                for n in ast.walk(func.node):
+                    if isinstance(n, (ast.Global, ast.Nonlocal)):
+                        bound -= set(n.names)
+                locs[id(func)] = bound
+            if name in locs[id(func)] and name not in func.all_params:
+                raise PyRaise("UnboundLocalError", "local variable %r referenced before assignment" % name)
         r = self.prog.resolve_name(mod, name, func) if mod is not None else None
         if r is None and name in self.builtins:
             return self.builtins[name]
@@ -1284,7 +1305,14 @@ class Ev:
                 env["__yields__"].append(v)
             return None
         if isinstance(e, ast.Lambda):
-            raise Undecided("lambda")
+            cache = self.__dict__.setdefault("_defs_by_node", {})
+            if id(e) not in cache:
+                owner = func if isinstance(func, Func) else None
+                mod = func.mod if func is not None else None
+                if mod is None:
+                    raise Undecided("lambda outside a function")
+                cache[id(e)] = Func(mod, "%s.<lambda@%d>" % (owner.qual if owner else mod.name, e.lineno), e, cls=None, outer=owner)
+            return FuncRef(self, cache[id(e)], closure=env)
         if isinstance(e, ast.NamedExpr):
             v = self.expr(e.value, env, func)
             env[e.target.id] = v
